@@ -759,7 +759,13 @@ func (f *frame) execBlock(b *ssa.BasicBlock, st *State) (term ssa.Instruction, o
 				ln.normalize()
 			}
 			ln.IsLen = o
-			st.env[x] = &Slice{Obj: o, Path: "", Off: NewConstInt(64, true, 0), Len: ln, Elem: t.Elem()}
+			sl := &Slice{Obj: o, Path: "", Off: NewConstInt(64, true, 0), Len: ln, Elem: t.Elem()}
+			if cp := f.intOperand(st, x.Cap); cp != nil {
+				if cv, isc := cp.Const(); isc && cp.allBitsConst() {
+					sl.CapKnown, sl.Cap = true, cv
+				}
+			}
+			st.env[x] = sl
 		case *ssa.MakeMap:
 			// a map whose type is never updated by run-phase code is a lookup table: its entries
 			// are kept per constant key; other maps are opaque
@@ -853,8 +859,13 @@ func (f *frame) execBlock(b *ssa.BasicBlock, st *State) (term ssa.Instruction, o
 		case *ssa.Go:
 			// goroutine bodies are not evaluated here (E5 rules inspect them)
 		case *ssa.Defer:
-			// deferred calls are inspected by E4 rules
+			// evaluated where they run: at the function's RunDefers
 		case *ssa.RunDefers:
+			st2, alive := f.runDefers(st, x)
+			if !alive {
+				return nil, st, true
+			}
+			st = st2
 		case *ssa.SliceToArrayPointer:
 			st.env[x] = it.topOf(x.Type(), nil)
 		default:
@@ -1437,7 +1448,17 @@ func (f *frame) sliceOp(st *State, x *ssa.Slice) Value {
 		if len(b.Idx) > 0 {
 			break
 		}
-		return &Slice{Obj: b.Obj, Path: b.Path, Off: lo, Len: ln, Elem: elem}
+		res := &Slice{Obj: b.Obj, Path: b.Path, Off: lo, Len: ln, Elem: elem}
+		if lc, isc := lo.Const(); isc {
+			res.CapKnown, res.Cap = true, arr.Len()-lc
+			if x.Max != nil {
+				res.CapKnown = false
+				if mv, ok := f.intOperand(st, x.Max).Const(); ok {
+					res.CapKnown, res.Cap = true, mv-lc
+				}
+			}
+		}
+		return res
 	case *Slice:
 		if hi == nil {
 			hi = toShape(b.Len, 64, true)
@@ -1458,7 +1479,17 @@ func (f *frame) sliceOp(st *State, x *ssa.Slice) Value {
 		if c, ok := lo.Const(); ok && c == 0 && x.High == nil {
 			return b
 		}
-		return &Slice{Obj: b.Obj, Path: b.Path, Off: off, Len: ln, Elem: b.Elem}
+		res := &Slice{Obj: b.Obj, Path: b.Path, Off: off, Len: ln, Elem: b.Elem}
+		if lc, isc := lo.Const(); isc {
+			if x.Max != nil {
+				if mv, ok := f.intOperand(st, x.Max).Const(); ok {
+					res.CapKnown, res.Cap = true, mv-lc
+				}
+			} else if b.CapKnown {
+				res.CapKnown, res.Cap = true, b.Cap-lc
+			}
+		}
+		return res
 	case *Str:
 		return &Str{D: b.D}
 	case *NilV:
@@ -1718,4 +1749,86 @@ func (f *frame) mapLookup(st *State, x *ssa.Lookup, mv, key Value) (Value, bool)
 		return &Tuple{Vs: []Value{val, okv}}, true
 	}
 	return val, true
+}
+
+// runDefers evaluates the function's deferred calls at a RunDefers instruction, last deferred first.
+// A defer statement that every path to this point has executed exactly once (its block dominates this one and
+// lies on no cycle) is evaluated as a call made here: its operands are SSA values fixed at the defer statement.
+// Any other defer statement (conditional, or in a loop) is reported as undecided.
+func (f *frame) runDefers(st *State, at *ssa.RunDefers) (*State, bool) {
+	it := f.it
+	var ds []*ssa.Defer
+	for _, b := range f.fn.Blocks {
+		for _, ins := range b.Instrs {
+			if d, ok := ins.(*ssa.Defer); ok {
+				ds = append(ds, d)
+			}
+		}
+	}
+	if len(ds) == 0 {
+		return st, true
+	}
+	onCycle := func(b *ssa.BasicBlock) bool {
+		seen := map[*ssa.BasicBlock]bool{}
+		work := append([]*ssa.BasicBlock(nil), b.Succs...)
+		for len(work) > 0 {
+			x := work[len(work)-1]
+			work = work[:len(work)-1]
+			if x == b {
+				return true
+			}
+			if seen[x] {
+				continue
+			}
+			seen[x] = true
+			work = append(work, x.Succs...)
+		}
+		return false
+	}
+	// order: a dominating sequence is totally ordered by dominance; within a block by position
+	pos := func(d *ssa.Defer) int {
+		for i, ins := range d.Block().Instrs {
+			if ins == d {
+				return i
+			}
+		}
+		return 0
+	}
+	sort.SliceStable(ds, func(i, j int) bool {
+		bi, bj := ds[i].Block(), ds[j].Block()
+		if bi == bj {
+			return pos(ds[i]) > pos(ds[j])
+		}
+		return bj.Dominates(bi) // later (dominated) first
+	})
+	for _, d := range ds {
+		b := d.Block()
+		if !(b == at.Block() || b.Dominates(at.Block())) || onCycle(b) {
+			it.undecided(st, d, "deferred call that is conditional or in a loop")
+			continue
+		}
+		c := d.Common()
+		args := make([]Value, len(c.Args))
+		for i, a := range c.Args {
+			args[i] = f.operand(st, a)
+		}
+		if c.IsInvoke() {
+			it.undecided(st, d, "deferred interface method call")
+			continue
+		}
+		var out *State
+		switch callee := c.Value.(type) {
+		case *ssa.Builtin:
+			continue // close / recover / print: no machine state
+		case *ssa.Function:
+			_, out = it.callResolved(st, d, callee, args, nil)
+		default:
+			_, out = f.callValue(st, d, f.operand(st, c.Value), args)
+		}
+		if out == nil {
+			return nil, false
+		}
+		st = out
+	}
+	return st, true
 }
